@@ -111,8 +111,15 @@ class RequirementUnion(HostRequirement):
 
     requirements: List["HostSimpleRequirement"]
 
-    def __init__(self, *requirements: "HostSimpleRequirement"):
-        self.requirements = list(requirements)
+    def __init__(self, *requirements: "HostRequirement"):
+        # a | b | c is the ordered list [a, b, c]: the alternatives of a union
+        # are simple requirements
+        self.requirements = []
+        for requirement in requirements:
+            if isinstance(requirement, RequirementUnion):
+                self.requirements.extend(requirement.requirements)
+            else:
+                self.requirements.append(requirement)
 
     def match(self, host: HostSpecification) -> Optional[MatchRequirement]:
         """Returns the matched requirement (if any)"""
